@@ -10,7 +10,7 @@ THEOREMS = ["Econf.C20_readFile_out", "Econf.C20_readConfig_out", "Econf.C20_his
             "Econf.C20_readConfig_fresh", "Econf.C20_readConfig_no_leak", "Econf.C20_own_refines"]
 SHRINK = False
 RULE = ("API call sequences of C11 and layered reads of C01/C06/C13/C16 with a failure injected at each consulted file in turn "
-        "(callback rejection, foreign owner, malformed line, vanished file = dangling link) and unknown options, through all read entry "
+        "(callback rejection, foreign owner, malformed line, vanished file = dangling link, file removed by the callback while an earlier file is checked) and unknown options, through all read entry "
         "points; after the caller has freed the valid handles the allocator's live-byte count (ASan) must be back at its mark; ASan "
         "reports double frees and use after free; out-pointers must be NULL, untouched or usable; the object events reported by the library "
         "(creation / release of every econf_file) must form a correct ledger (fresh ids, no release of a dead object) with nothing alive at the end, "
@@ -52,9 +52,20 @@ def inject(rng, sid):
     main, drops = trees.consulted(tv, p["dirs"], p["name"], p["dsfx"], p["postfixes"])
     files = ([main] if main else []) + drops
     real = [f for f in files if tv.get(f) and tv.get(f)[0] != "dir"]
-    fault = rng.choice(["none", "callback", "owner", "malformed", "vanished", "callback"])
+    fault = rng.choice(["none", "callback", "owner", "malformed", "vanished", "callback", "unlinked"])
     cb = None
     pre = []
+    impl_only = False
+    if fault == "unlinked":
+        # a consulted file disappears between the directory listing and the moment it is looked at: the check callback
+        # removes it while an earlier file is being checked (the model has no file system that changes during a read:
+        # judged by the ledger of the library's own object events and the live-byte count)
+        later = [f for f in real[1:]]
+        if later:
+            cb = "cb:rm:0:" + h(rng.choice(later))
+            impl_only = True
+        else:
+            fault = "none"
     if fault == "callback":
         cb = "cb:rej:%d" % rng.randint(0, max(len(files), 1))
     elif fault != "none" and real:
@@ -72,6 +83,8 @@ def inject(rng, sid):
     if p["call"][0] == "RD" and rng.random() < 0.4:
         entry = "RH"
     s = Scenario(sid, {"kind": "inject", "fault": fault, "entry": entry or p["call"][0], "shape": shape, "nfiles": len(files)})
+    if impl_only:
+        s.meta["impl_only"] = True
     t.emit(s)
     if p["global_confdirs"] is not None:
         p["global_confdirs"] = None      # the process-wide list stays allocated by design
